@@ -143,10 +143,14 @@ def body_cli(case, rec):
 @st.composite
 def cases(draw, cli=False):
     t = draw(gen.texel())
-    inp = draw(gen.input_assembly(t, max_scaffolds=4 if cli else 6, max_contigs=6 if cli else 10, arbitrary_names=True))
-    if draw(st.integers(0, 4)) == 0:
-        # haplotype-prefixed names, the haplotypes interleaved in the input file (HAP1_1, HAP2_2, HAP1_3, ...)
+    inp = draw(gen.input_assembly(t, max_scaffolds=4 if cli else 6, max_contigs=6 if cli else 10, arbitrary_names=True,
+                                  double_gaps=draw(st.integers(0, 3)) == 0))
+    if draw(st.integers(0, 3 if cli else 4)) == 0:
+        # haplotype-prefixed names, the haplotypes interleaved in the input file (HAP1_1, HAP2_2, HAP1_3, ...);
+        # some scaffolds keep a name without such a prefix (their edits belong to no haplotype's figures)
         for i, sc in enumerate(inp):
+            if i >= 2 and draw(st.integers(0, 2)) == 0:
+                continue
             new = f"{['HAP1', 'HAP2'][i % 2]}_SCAFFOLD_{i + 1}"
             fasta_shaped = all(r[1] == sc[0] for r in sc[1] if r[0] == "F")
             for k, r in enumerate(sc[1]):
@@ -187,6 +191,8 @@ SUBS = [
         budget={"quick": 24000, "thorough": 400000}, desc="AssemblyStats.cuts/breaks/joins vs independent adjacency count"),
     Sub("cli", kind="hyp", strategy=lambda: cases(cli=True), body=body_cli,
         budget={"quick": 240, "thorough": 3000}, desc="log line, info.yaml totals and haplotig-removal count vs the AGP files written"),
+    Sub("cli_haplotypes", kind="hyp", strategy=lambda: gen.tagged_case(two_haplotypes=True, primary_mode=False, max_scaffolds=6, max_contigs=4, unprefixed_in_primary=True), body=body_cli,
+        budget={"quick": 320, "thorough": 4000}, desc="two-haplotype maps (several listed assemblies, some input scaffolds without a haplotype prefix): info.yaml totals vs the files written"),
     Sub("cli_haplotigs", kind="hyp", strategy=haplotig_sliver_cases, body=body_cli,
         budget={"quick": 320, "thorough": 4000}, desc="same on maps full of Haplotig pieces that cover mostly gap (overlap results emptied after the H_n name was issued)"),
 ]
